@@ -290,7 +290,7 @@ func (g *gen) build(e Env) interface{} {
 
 // ---- an independent projection of envelope values ----------------------------
 
-func absNode(n lime.Node) interface{} { return [3]string{n.Name, n.Domain, n.Instance} }
+func absNode(n lime.Node) interface{}    { return [3]string{n.Name, n.Domain, n.Instance} }
 func absMT(m lime.MediaType) interface{} { return [3]string{m.Type, m.Subtype, m.Suffix} }
 
 func absDoc(d lime.Document) interface{} {
